@@ -516,6 +516,23 @@ def positive_isinstance(test, operand):
     return "|".join(n.split(".")[-1] for n in names)
 
 
+def scalar_only_test(test, operand):
+    """the branch is taken only by operands that are neither tensors nor operators (python numbers have no shape):
+    isinstance(<operand>, numbers.Number / int / float) [and ...]   or   not (torch.is_tensor(<operand>) or isinstance(<operand>, LinearOperator))"""
+    if operand is None:
+        return False
+    if isinstance(test, ast.BoolOp) and isinstance(test.op, ast.And):
+        return any(scalar_only_test(x, operand) for x in test.values)
+    pk = positive_isinstance(test, operand)
+    if pk is not None and all(n in ("Number", "int", "float") for n in pk.split("|")):
+        return True
+    if isinstance(test, ast.UnaryOp) and isinstance(test.op, ast.Not) and isinstance(test.operand, ast.BoolOp) \
+            and isinstance(test.operand.op, ast.Or):
+        txt = sorted(ast.unparse(x) for x in test.operand.values)
+        return txt == sorted(["torch.is_tensor(%s)" % operand, "isinstance(%s, LinearOperator)" % operand])
+    return False
+
+
 def flow(stmts, states, params, mname, exits, operand=None, fast=None, stack=()):
     """abstract interpretation: states = set of (frozenset of guards established so far, operand-kind condition);
     returns the states falling through; appends (guards, kind, cond) to exits at every return"""
@@ -527,7 +544,7 @@ def flow(stmts, states, params, mname, exits, operand=None, fast=None, stack=())
             for g, c in states:
                 exits.add((g, kind, c))
             ru = returned_unchanged(s.value, operand)
-            if fast is not None and ru is not None:
+            if fast is not None and ru is not None and "#scalar" not in stack:
                 for g, c in states:
                     fast.add((g, ru, tuple(stack)))
             return set()
@@ -535,8 +552,10 @@ def flow(stmts, states, params, mname, exits, operand=None, fast=None, stack=())
             return set()
         if isinstance(s, ast.If):
             pk = positive_isinstance(s.test, operand)
-            then_stack = stack + ((pk,) if pk else ())
+            then_stack = stack + (("#scalar",) if scalar_only_test(s.test, operand) else ((pk,) if pk else ()))
             ok_ = operand_kind_of_test(s.test, operand)
+            if ok_ is None and scalar_only_test(s.test, operand):
+                ok_ = "nontensor"          # taken only by python numbers: infeasible for a tensor operand
             if ok_ is not None:
                 st_then = {(g, meet(c, ok_)) for g, c in states}
                 st_then = {x for x in st_then if x[1] is not None}
@@ -889,7 +908,44 @@ class OpTr(FnTr):
             return b1 + b2, c, "bool"
         raise Untranslatable("expression %s" % ast.dump(e)[:60])
 
+    def static_bool(self, t):
+        """value of an operand-KIND test when the operand is known to be an operator of class operand_cls (else None):
+        torch.is_tensor(operand) is False; isinstance(operand, K) is True when operand_cls is K or a subclass of it and
+        False when the two classes are unrelated (undecided when K is a proper subclass of operand_cls)"""
+        if self.operand_cls is None:
+            return None
+        if isinstance(t, ast.UnaryOp) and isinstance(t.op, ast.Not):
+            v = self.static_bool(t.operand)
+            return None if v is None else (not v)
+        if isinstance(t, ast.BoolOp):
+            vs = [self.static_bool(x) for x in t.values]
+            if isinstance(t.op, ast.Or):
+                return True if any(v is True for v in vs) else (False if all(v is False for v in vs) else None)
+            return False if any(v is False for v in vs) else (True if all(v is True for v in vs) else None)
+        if isinstance(t, ast.Call):
+            nm = dotted_name(t.func)
+            if nm == "torch.is_tensor" and len(t.args) == 1 and isinstance(t.args[0], ast.Name) and t.args[0].id == self.operand:
+                return False
+            if nm == "isinstance" and len(t.args) == 2 and isinstance(t.args[0], ast.Name) and t.args[0].id == self.operand:
+                ks = t.args[1].elts if isinstance(t.args[1], ast.Tuple) else [t.args[1]]
+                names = [dotted_name(x) for x in ks]
+                if any(n is None for n in names):
+                    return None
+                names = [n.split(".")[-1] for n in names]
+                mro = c3(self.classes, self.operand_cls, self.memo)
+                if any(n in mro for n in names):
+                    return True
+                if all(n in ("Tensor", "Number", "int", "float") or
+                       (n in self.classes and self.operand_cls not in c3(self.classes, n, self.memo)) for n in names):
+                    return False
+        return None
+
     def stmts(self, ss, k):
+        # an operand-kind test that is decided for an operator operand: only the branch taken is translated
+        if ss and isinstance(ss[0], ast.If):
+            v = self.static_bool(ss[0].test)
+            if v is not None:
+                return self.stmts((ss[0].body if v else ss[0].orelse) + ss[1:], k)
         # local assignment of tensor / shape / operator values: keep the denotation (no Gallina `let` needed for terms)
         if ss and isinstance(ss[0], ast.Assign) and len(ss[0].targets) == 1 and isinstance(ss[0].targets[0], ast.Name):
             b, t, ty = self.expr(ss[0].value)
@@ -973,10 +1029,8 @@ def translate_operator_overrides(classes, memo):
     out.append("Definition gen_dense_add (a b : shape) : res shape :=\n%s.\n"
                % tr.stmts(isinstance_branch(fn, operand_of(fn), "DenseLinearOperator"), None))
 
-    # ZeroLinearOperator.__add__ / mul, any operator operand
-    fn = need("ZeroLinearOperator", "__add__")
-    tr = OpTr(classes, memo, "ZeroLinearOperator", operand_of(fn), "LinearOperator")
-    out.append("Definition gen_zero_add (a b : shape) : res shape :=\n%s.\n" % tr.stmts(body_without_doc(fn), None))
+    # ZeroLinearOperator.mul, any operator operand  (ZeroLinearOperator.__add__ = `return other` is a pinned defect with a
+    # proposed repair: hand transcription Model.pinned_zero_add, tied by the correspondence only)
     fn = need("ZeroLinearOperator", "mul")
     inheritors_keep_ctor(classes, memo, "ZeroLinearOperator", "mul")
     tr = OpTr(classes, memo, "ZeroLinearOperator", operand_of(fn), "LinearOperator")
